@@ -190,6 +190,48 @@ func runC09(c *Ctx) {
 	c.Check(nSend == 1, "C09.A3-deliver-checked", "announce › single delivery site", token.NoPos, "one send site on the consumer channel", "the consumer channel is fed from "+itoa(nSend)+" sites")
 	c.Floor("C09.A3-deliver-checked", 4)
 	c.Floor("C09.A4-addresses-filtered", 1)
+	// the filters in force are the configured ones: every receiver the constructor hands out carries the configured
+	// allow filter and address-filter flag (a second construction path that forgets one silently disables it)
+	if nr := c.Func(pkg, "NewReceiver"); nr != nil {
+		nLit := 0
+		for _, b := range nr.SSA.Blocks {
+			ret, ok := b.Instrs[len(b.Instrs)-1].(*ssa.Return)
+			if !ok || len(ret.Results) != 2 || c.RetX(ret, 1).Op != "nil" {
+				continue
+			}
+			for _, l := range c.Leaves(c.RetX(ret, 0), ret) {
+				nLit++
+				fs := map[string]*X{}
+				if l.Op == "complit" {
+					for _, fi := range l.Args {
+						if fi.Op == "fieldinit" && len(fi.Args) == 1 {
+							fs[fi.Name] = fi.Args[0]
+						}
+					}
+				}
+				for k, v := range c.CellFields(l) {
+					if _, have := fs[k]; !have {
+						fs[k] = v
+					}
+				}
+				for _, name := range []string{"allowPeer", "filterIPs"} {
+					okF := false
+					if v := fs[name]; v != nil {
+						if m := strip(v); m.Op == "field" && m.Name == name && fieldOwner(m) == "config" {
+							okF = true
+						}
+					}
+					c.Check(okF, "C09.A4-configured-filters-in-force", nr.Name+" › "+name, ret.Pos(), "the receiver returned takes "+name+" from the options", "a receiver is returned whose "+name+" is not the configured one: the "+map[string]string{"allowPeer": "allow filter", "filterIPs": "address filter"}[name]+" the user asked for is silently off for that construction path")
+				}
+			}
+		}
+		if nLit == 0 {
+			c.Unk("C09.A4-configured-filters-in-force", nr.Name, nr.SSA.Pos(), "no success return found")
+		}
+	} else {
+		c.Unk("C09.A4-configured-filters-in-force", "announce.NewReceiver", token.NoPos, "not found")
+	}
+	c.Floor("C09.A4-configured-filters-in-force", 2)
 
 	// ---- A5 republication ------------------------------------------------------------------------------
 	nRep := 0
@@ -433,4 +475,66 @@ func c09LRU(c *Ctx, pkg string) {
 	}
 	c.Check(okRet, "C09.A8-lru-discipline", upd.Name+" › reports hit/miss", upd.SSA.Pos(), "returns true exactly on a hit", "update's result does not tell hit from miss")
 	c.Floor("C09.A8-lru-discipline", 8)
+	// the duplicate filter is consulted through its own operations only: a look at its internals from outside
+	// neither refreshes recency nor obeys the list/map pairing
+	isLRU := func(fn *ssa.Function) bool {
+		fn = topFunc(fn)
+		if r := c.Role("lru.new"); r != nil && fn == r {
+			return true
+		}
+		if recv := fn.Signature.Recv(); recv != nil {
+			if n, ok := deref(recv.Type()).(*types.Named); ok && canonType(n.Obj()) == "stringLRU" {
+				return true
+			}
+		}
+		return false
+	}
+	var pfns []*ssa.Function
+	for _, f := range c.Funcs(pkg) {
+		pfns = append(pfns, f.SSA)
+	}
+	outside := fieldsAccessedOutside(c, pfns, "stringLRU", isLRU)
+	for _, in := range outside {
+		c.Bad("C09.A8-lru-encapsulated", c.short(topFunc(in.Parent()).String())+" › reads the filter's internals", in.Pos(), "the duplicate filter's map/list is accessed outside its own methods: such a test does not refresh the recency of a duplicate (and bypasses the pairing rules)")
+	}
+	if len(outside) == 0 {
+		c.OK("C09.A8-lru-encapsulated", "announce › filter internals private", token.NoPos, "stringLRU fields are touched only by its methods and constructor")
+	}
+	if pc := c.posex(); pc == nil {
+		c.Unk("C09.A8-lru-encapsulated", "positive example", token.NoPos, "positive example package could not be loaded")
+	} else {
+		var pf []*ssa.Function
+		for _, f := range pc.Funcs("ipnicheck/testdata/posex") {
+			pf = append(pf, f.SSA)
+		}
+		n := len(fieldsAccessedOutside(pc, pf, "readOnly", func(*ssa.Function) bool { return false }))
+		c.Check(n >= 2, "C09.A8-lru-encapsulated", "positive example fires", token.NoPos, "rule finds the outside accesses in the embedded example", "rule did not fire on its positive example: it would pass vacuously")
+	}
+	c.Floor("C09.A8-lru-encapsulated", 2)
+
+}
+
+// fieldsAccessedOutside lists field accesses on values of the named struct
+// type in functions for which inside() is false.
+func fieldsAccessedOutside(c *Ctx, fns []*ssa.Function, typeName string, inside func(*ssa.Function) bool) []ssa.Instruction {
+	var out []ssa.Instruction
+	for _, fn := range fns {
+		instrsDeep(fn, func(g *ssa.Function, in ssa.Instruction) {
+			var t types.Type
+			switch v := in.(type) {
+			case *ssa.FieldAddr:
+				t = deref(v.X.Type())
+			case *ssa.Field:
+				t = v.X.Type()
+			default:
+				return
+			}
+			n, ok := t.(*types.Named)
+			if !ok || canonType(n.Obj()) != typeName || inside(g) {
+				return
+			}
+			out = append(out, in)
+		})
+	}
+	return out
 }
